@@ -28,9 +28,13 @@ import (
 // height sequence is a replayable function of the seed.
 
 type KOp struct {
-	K string `json:"k"` // put | get | remove
+	K string `json:"k"` // put | get | remove | churn
 	I int    `json:"i"` // key index into the universe
 	V int    `json:"v,omitempty"`
+	// N, for "churn": the number of rounds of Put(k, v), Get(k), Remove(k)
+	// over the three keys I, I+1, I+2 in turn — the life of a long-lived list
+	// written as one operation (the map model is the same before and after).
+	N int `json:"n,omitempty"`
 }
 
 type History struct {
@@ -145,6 +149,27 @@ func runHistory[K comparable, V any](h History, universe []K, cmp ord.Ord[K], sh
 			got := list.Get(k)
 			if want := ref[k]; !eq(got, want) {
 				return viol("C18.a", "Get returned a value different from the map model", "history %v: op %d get(%v) = %v, model %v", h, n, show(k), got, want)
+			}
+		case "churn":
+			var zero V
+			for j := 0; j < op.N; j++ {
+				ck := universe[(op.I+j%3)%len(universe)]
+				if _, live := ref[ck]; live {
+					continue // the round uses keys that are absent at this point
+				}
+				v := mk(1 + j%5)
+				list.Put(ck, v)
+				if got := list.Get(ck); !eq(got, v) {
+					return viol("C18.a", "Get returned a value different from the map model", "history %v: op %d, churn round %d: get(%v) = %v after put %v", h, n, j, show(ck), got, v)
+				}
+				if got := list.Remove(ck); !eq(got, v) {
+					return viol("C18.a", "Remove returned a value different from the map model", "history %v: op %d, churn round %d: remove(%v) = %v, model %v", h, n, j, show(ck), got, v)
+				}
+				if j%65536 == 0 {
+					if got := list.Get(ck); !eq(got, zero) {
+						return viol("C18.a", "Get returned a value different from the map model", "history %v: op %d, churn round %d: get(%v) = %v after remove", h, n, j, show(ck), got)
+					}
+				}
 			}
 		case "remove":
 			if _, ok := ref[k]; ok && st != nil {
@@ -368,6 +393,18 @@ func genHistory(r *driver.Rand, thorough bool) History {
 
 func shrinkHistory(h History, fails func(History) bool) History {
 	cur := h
+	// fewer churn rounds first (they dominate the cost of every attempt)
+	for i := range cur.Ops {
+		for cur.Ops[i].K == "churn" && cur.Ops[i].N > 1 {
+			q := cur
+			q.Ops = append([]KOp(nil), cur.Ops...)
+			q.Ops[i].N = cur.Ops[i].N / 2
+			if !fails(q) {
+				break
+			}
+			cur = q
+		}
+	}
 	for chunk := len(cur.Ops) / 2; chunk >= 1; {
 		removed := false
 		for i := 0; i+chunk <= len(cur.Ops); i++ {
@@ -560,6 +597,24 @@ func runC18(t *testing.T, in *driver.WorkerIn) *driver.WorkerOut {
 		batch = batch[:0]
 	}
 	out.EnumBases = out.EnumRuns
+	// one long-lived list: millions of insertions and removals over a handful
+	// of keys, framed by ordinary operations (whatever a list counts, grows or
+	// pre-allocates per insertion gets used up)
+	if in.Worker == in.Workers-1 {
+		rounds := 1<<22 + 1<<16
+		if in.Thorough {
+			rounds = 1<<24 + 1<<16
+		}
+		for _, keys := range []string{"int", "string"} {
+			runBatch([]History{{Keys: keys, ClockN: 12345, PrintAt: []int{0, 3}, Ops: []KOp{
+				{K: "put", I: 5, V: 1}, {K: "churn", I: 1, N: rounds}, {K: "get", I: 5}, {K: "put", I: 2, V: 3}, {K: "remove", I: 5, V: 1}, {K: "get", I: 2},
+			}}}, true)
+			if keys == "int" && !in.Thorough {
+				break
+			}
+		}
+		out.Probes["long_lived_list_churn_rounds"] = rounds
+	}
 	// random part
 	var rb []History
 	for i := in.Worker; i < in.Random; i += in.Workers {
